@@ -175,6 +175,8 @@ def body(ctx: H.BaseCtx):
                 lkw["encoding"] = None
             elif "fmt" in case:
                 kw["fmt"] = case["fmt"]
+                if case.get("load_dtype"):
+                    lkw["dtype"] = case["load_dtype"]
             saver = numpy.savetxt if case.get("saver") == "numpy" else numpoly.savetxt
             try:
                 if case.get("fileobj"):
@@ -193,7 +195,8 @@ def body(ctx: H.BaseCtx):
             if not isinstance(q, numpoly.ndpoly):
                 ctx.fail("type", "loadtxt returned %s" % type(q).__name__)
             else:
-                ctx.expect_model(q, M.to_model(p), "text round trip", rtol=None if ctx.symbolic else 1e-12)
+                # default '%.18e' text is exact to float precision; an integer format must round-trip integers exactly
+                ctx.expect_model(q, M.to_model(p), "text round trip", rtol=None if ctx.symbolic else (0 if case.get("fmt") == "%d" else 1e-12))
                 if tuple(q.names) != tuple(p.names):
                     ctx.fail("names", "text round trip: names %s != %s" % (tuple(q.names), tuple(p.names)))
                 check_invariants(ctx, q, "loaded polynomial")
@@ -266,6 +269,10 @@ def gen_cases(tier: str, seed: int) -> List[Dict]:
             add("text", P(shape, nterms=nt, atoms=3), save_kwargs=rng.choice(settings), saver=rng.choice(["numpoly", "numpy"]), fileobj=rng.random() < 0.3)
     add("text", P((2,), names=("q0", "q1", "q2", "q10"), nterms=3), save_kwargs={}, saver="numpoly", fileobj=False)
     add("text", P((3,), nterms=2), save_kwargs={}, saver="numpoly", fileobj=True)
+    # exact integer format: coefficients beyond 2**53 must come back exactly (native runs; literals, no atoms)
+    big = {"kind": "poly", "names": ["q0", "q1"], "exps": [[0, 0], [1, 1]], "shape": [2], "slots": [[9007199254740993, 3], [-(2 ** 62 + 5), 1]], "mode": "raw"}
+    add("text", big, save_kwargs={}, saver="numpoly", fileobj=False, fmt="%d", load_dtype="int")
+    add("text", big, save_kwargs={"delimiter": ","}, saver="numpy", fileobj=True, fmt="%d", load_dtype="int")
     for shape in [(3,), (2, 2), (1, 3)]:
         add("plain", S.make_numeric_spec("x", "array", shape, rng, 3), header=rng.choice(["", "some other header", "numpoly is mentioned but this is no numpoly header"]))
     return cases
